@@ -31,8 +31,7 @@ def build_replay(profile='release'):
     """(re)build the native replay binary against /repo's current working tree"""
     if profile in _built:
         return _built[profile]
-    env = dict(os.environ, CARGO_NET_OFFLINE='true')
-    env.pop('RUSTFLAGS', None)
+    env = dict(os.environ, CARGO_NET_OFFLINE='true', RUSTFLAGS='--cfg dfinity_bitcoin_canister_verif')
     lock = os.path.join(REPLAY_DIR, 'Cargo.lock')
     if not os.path.exists(lock):
         import shutil
